@@ -241,13 +241,28 @@ class Model:
             from .inventory import FUNCTIONS, MODULE_NAMES
         except ImportError:
             return
-        from .inline import MAX_ROUNDS, desugar_match, drop_absorbed_helpers, erase_new_namedtuples, inline_new_helpers, propagate_new_constants
+        from .inline import MAX_ROUNDS, desugar_ifexp, desugar_match, dissolve_new_cm_classes, drop_absorbed_helpers, erase_new_namedtuples, inline_new_helpers, scalarise_local_dicts, unroll_new_tables, propagate_new_constants
 
         if desugar_match(self):
+            self._reindex()
+        if desugar_ifexp(self):
             self._reindex()
 
         self.namedtuples_erased = erase_new_namedtuples(self, MODULE_NAMES)
         if self.namedtuples_erased:
+            self._reindex()
+
+        self.cms_dissolved = []
+        for _ in range(4):
+            d_ = dissolve_new_cm_classes(self, MODULE_NAMES)
+            if not d_:
+                break
+            self.cms_dissolved += d_
+            self._reindex()
+
+        self.tables_unrolled = unroll_new_tables(self, MODULE_NAMES)
+        if self.tables_unrolled:
+            self.dicts_scalarised = scalarise_local_dicts(self)
             self._reindex()
 
         self.constants_substituted = propagate_new_constants(self, MODULE_NAMES)
@@ -466,6 +481,34 @@ class Model:
                  and "<locals>" not in q]
         return cands[0] if len(cands) == 1 else None
 
+    def is_call_to(self, scope, call, qualname: str) -> bool:
+        """Does `call` (seen from `scope`) invoke the anchor function `qualname` -- under whatever name /
+        through whatever receiver (`f(..)`, `cls.f(..)`, `Class.f(..)`, a module-level alias) it is reached?"""
+        if not isinstance(call, ast.Call):
+            return False
+        try:
+            target = self.func(qualname)
+        except Exception:
+            return False
+        try:
+            t = self.resolve_call(scope, call)
+        except Exception:
+            t = None
+        if t is not None and t.kind == "func" and t.target is target:
+            return True
+        # the pinned spelling (the resolver may not follow an exotic receiver)
+        fn = call.func
+        last = fn.id if isinstance(fn, ast.Name) else fn.attr if isinstance(fn, ast.Attribute) else None
+        if last is None or last != target.name:
+            return False
+        if isinstance(fn, ast.Name):
+            return t is None or t.kind not in ("func", "class")
+        # Attribute receiver: a class / cls / self that owns the target
+        if target.cls is not None and isinstance(fn.value, ast.Name):
+            if fn.value.id in ("cls", "self", "mcs", target.cls.name):
+                return True
+        return False
+
     def func_opt(self, qualname: str) -> Optional[FuncInfo]:
         return self.functions.get(qualname)
 
@@ -603,6 +646,12 @@ class Model:
                 return b.target.dotted
             return None
         if isinstance(e, ast.Attribute):
+            if isinstance(e.value, ast.Name) and isinstance(scope, FuncInfo) and scope.cls is not None and scope.params and e.value.id == scope.params[0] \
+                    and e.value.id in ("self", "cls", "mcs"):
+                # `self.method` / `cls.method` inside a method: the method of the enclosing class (or a base)
+                f = self.lookup_method(scope.cls, e.attr)
+                if f is not None:
+                    return f
             base = self.resolve_expr_static(scope, e.value)
             if isinstance(base, str):
                 b = self.resolve_dotted(base + "." + e.attr)
